@@ -1383,7 +1383,7 @@ class TOTP:
 
         # parse query params
         params = dict(label=label)
-        for k, v in parse_qsl(result.query):
+        for k, v in parse_qsl(result.query, keep_blank_values=True):
             if k in params:
                 raise cls._uri_parse_error(f"duplicate parameter ({k!r})")
             params[k] = v
